@@ -55,6 +55,10 @@ class Verifier:
             if default is not None:
                 return self.interp.last_top_env.get(name, default)
             if name not in self.interp.last_top_env:
+                fi_ = self.interp.sb.func(self.interp.top_key) if self.interp.top_key else None
+                alt = self.interp.renamed(fi_).get(name) if fi_ is not None else None
+                if alt in self.interp.last_top_env:
+                    return self.interp.last_top_env[alt]
                 raise MissingWitness(name)
             return self.interp.last_top_env[name]
         self.interp.ghost_frames = []
